@@ -117,7 +117,7 @@ fn check_case(layout: &Layout, cfg: &Cfg) -> Result<bool, (String, String)> {
         let ups: Vec<Upd> = layout.all_updates().into_iter().filter(|u| &u.key_name() == k).collect();
         let tmax = ups.iter().map(|u| u.time).max().unwrap_or(0);
         let tie = ups.iter().filter(|u| u.time == tmax).count() >= 2;
-        let hash = ups.iter().any(|u| matches!(u.kind, Kind::HashF | Kind::HashG));
+        let hash = ups.iter().any(|u| matches!(u.kind, Kind::HashF | Kind::HashG | Kind::HashDelF));
         let dropped = outcome.contains(" tombstones removed") && !outcome.contains(" 0 tombstones removed");
         let cause = if was_tomb && dropped && a.map(|x| !x.starts_with("lww:DEL")).unwrap_or(true) {
             "tombstone-dropped"
@@ -350,7 +350,7 @@ fn main() {
     sets.extend(subsets(&uni, 3));
     if thorough {
         // size 4 over a reduced universe (key 1, replica 1+2, times 1..3, kinds set-a/del/hset-f) + key 2
-        let red: Vec<Upd> = uni.iter().copied().filter(|u| u.key == 2 || matches!(u.kind, Kind::SetA | Kind::Tomb | Kind::HashF)).collect();
+        let red: Vec<Upd> = uni.iter().copied().filter(|u| u.key == 2 || matches!(u.kind, Kind::SetA | Kind::Tomb | Kind::HashF | Kind::HashDelF)).collect();
         sets.extend(subsets(&red, 4));
     }
     // size 4 (thorough: 5) over a tiny universe, so that every tier has layouts with >= 3 segments of unequal
@@ -460,7 +460,7 @@ fn main() {
     let coverage = json!({
         "evaluations": cases.load(Ordering::Relaxed) + race_execs,
         "distinct_nontrivial": compacted.load(Ordering::Relaxed) + race_outcomes.len() as u64,
-        "rule": "(a) every set of 2-3 updates, plus every set of 4 (thorough: 5) over a tiny universe (k1: {SET a, DEL} x time 1..3 x replica 1; two updates of k2) (thorough: also 4 over a reduced universe and 4 over all key-1 updates with times 1..2) from a universe of 32 updates (key k1: {SET a, SET b, DEL, HSET f, HSET g} x logical time 1..3 x replica 1..2; two updates of k2) whose merge is order-independent, placed in every way into >=2 ordered segments (optionally one update in a checkpoint), x 18 configurations (clock in {0, ttl-1, ttl+10, production epoch} x ttl in {1h, 0}; all segments selected / only single-record segments / at most 2 per compaction): recovered state before vs after one real compact(); a case is non-trivial when compaction actually rewrote segments; (b) every interleaving of the store operations of compact() and a concurrent flush() for the listed layouts",
+        "rule": "(a) every set of 2-3 updates, plus every set of 4 (thorough: 5) over a tiny universe (k1: {SET a, DEL} x time 1..3 x replica 1; two updates of k2) (thorough: also 4 over a reduced universe and 4 over all key-1 updates with times 1..2) from a universe of 38 updates (key k1: {SET a, SET b, DEL, HSET f, HSET g, HDEL f} x logical time 1..3 x replica 1..2; two updates of k2) whose merge is order-independent, placed in every way into >=2 ordered segments (optionally one update in a checkpoint), x 18 configurations (clock in {0, ttl-1, ttl+10, production epoch} x ttl in {1h, 0}; all segments selected / only single-record segments / at most 2 per compaction): recovered state before vs after one real compact(); a case is non-trivial when compaction actually rewrote segments; (b) every interleaving of the store operations of compact() and a concurrent flush() for the listed layouts",
         "update_sets_considered": sets.len(),
         "update_sets_with_order_dependent_merge_excluded": order_dependent,
         "layouts": layouts_n.load(Ordering::Relaxed),
